@@ -155,7 +155,8 @@ pub fn c15_orderings() {
     check!(!(s1 < e2) && !(s1 > e2) && !(s1 <= e2) && !(s1 >= e2), "a score is never comparable to an error (operators)");
     // collections and individuals compare exactly as their totals do
     let (x, y) = (any_i64(), any_i64());
-    let ta = TestResults { results: vec![Error(x)], total_result: Error(a) };
+    // one side with NO per-case results: comparison must still be that of the totals
+    let ta = TestResults { results: Vec::new(), total_result: Error(a) };
     let tb = TestResults { results: vec![Error(y), Error(x)], total_result: Error(b) };
     check!(ta.cmp(&tb) == rev(natural) && ta.partial_cmp(&tb) == Some(rev(natural)), "TestResults compare exactly as their totals do");
     let ia = EcIndividual::new(x, ta);
